@@ -30,7 +30,7 @@ ASSUMPTIONS = [
     'a boolean is not a number (value_type, comparison and validation all treat it as a separate type): arithmetic on booleans yields null',
     'x/0, x%0, % with a negative operand, 0**-1, negative**fractional and overflow are indeterminate: the case is discarded for the '
     'differential comparison (containment of those is C05)',
-    'datetimes are compared as local wall-clock times in the process time zone',
+    'datetimes are compared as local wall-clock times in the process time zone (shards run under UTC, America/New_York and Asia/Kolkata)',
 ]
 
 TZ5 = gv.TZ_PLUS5
@@ -393,6 +393,11 @@ def plan(tier):
 
 
 def run_shard(ctx, spec):
+    # aware datetimes (only a host can supply them) denote their instant as LOCAL wall-clock time: two of three shards run in a zone that is not UTC
+    import os
+    import time
+    os.environ['TZ'] = ['UTC', 'America/New_York', 'Asia/Kolkata'][(spec.get('k', 0) + spec.get('part', 0) + (1 if spec['kind'] == 'matrix' else 0)) % 3]
+    time.tzset()
     if spec['kind'] == 'matrix':
         cells = [(op, i, j) for op in ge.BINARY_OPS for i in range(len(MATRIX)) for j in range(len(MATRIX))]
         cells += [(op, i, None) for op in ('-', '!') for i in range(len(MATRIX))]
